@@ -146,6 +146,28 @@ for name in names:
         fib = f'fiber ({x} -> {y})-0'
         variants.append([(f'roadm {x}', True), (fib, True)])
         variants.append([(fib, True), (f'roadm {x}', True)])       # in this order the two cannot be crossed
+    def expand(p):
+        # the element names along a route given as a sequence of sites
+        out = [f'trx {p[0]}']
+        for x, y in zip(p, p[1:]):
+            out.append(f'roadm {x}')
+            for first in net.successors(by_uid[f'roadm {x}']):
+                chain, cur = [], first
+                while not isinstance(cur, (Roadm, Transceiver)):
+                    chain.append(cur.uid)
+                    cur = next(net.successors(cur))
+                if cur.uid == f'roadm {y}':
+                    out += chain
+                    break
+        return out + [f'roadm {p[-1]}', f'trx {p[-1]}']
+
+    # every element of a whole route named in order, end points included: 11 and more route objects (two-digit indices)
+    for mid in inner[:2]:
+        if rg.has_edge(s, mid) and rg.has_edge(mid, d):
+            full = expand([s, mid, d])
+            for flag in (True, False):
+                variants.append([(u, flag) for u in full])
+            variants.append([(u, k % 2 == 0) for k, u in enumerate(full)])
     for hops in hop_sets[:3]:
         # unknown names in front (LOOSE: skipped with a warning), the destination transceiver closing the list
         variants.append([('ghost 1', False), ('ghost 2', False)] + [(hops[0], True)])
@@ -178,21 +200,6 @@ for name in names:
         if got != want:
             wit.append({'key': key, 'problems': [f'route list loaded as {got}, the document says {want}']})
             continue
-
-        def expand(p):
-            # the element names along a route given as a sequence of sites
-            out = [f'trx {p[0]}']
-            for x, y in zip(p, p[1:]):
-                out.append(f'roadm {x}')
-                for first in net.successors(by_uid[f'roadm {x}']):
-                    chain, cur = [], first
-                    while not isinstance(cur, (Roadm, Transceiver)):
-                        chain.append(cur.uid)
-                        cur = next(net.successors(cur))
-                    if cur.uid == f'roadm {y}':
-                        out += chain
-                        break
-            return out + [f'roadm {p[-1]}', f'trx {p[-1]}']
 
         def through(p, need):
             # the names of `need` are met in this order along the route p (a sequence of sites)
